@@ -587,12 +587,13 @@ Variable junmarshal_resp : bytes -> option jresponse.
 Variable jconv : pty -> gval -> option gval.
 
 (* ClientCodec.Encode: id := atomic.AddInt64(&c.counter, 1) & 0x7fffffff *)
+Definition jrequest_of (counter : Z) (name : bytes) (args : list gval) (h : headers) : jrequest :=
+  {| jq_id := Z.land (counter + 1) 2147483647; jq_method := name;
+     jq_headers := match h with [] => None | _ => Some h end;
+     jq_params := match args with [] => None | _ => Some args end |}.
+
 Definition jclient_encode (counter : Z) (name : bytes) (args : list gval) (h : headers) : Z * bytes :=
-  let id := Z.land (counter + 1) 2147483647 in
-  (counter + 1,
-   jmarshal_req {| jq_id := id; jq_method := name;
-                   jq_headers := match h with [] => None | _ => Some h end;
-                   jq_params := match args with [] => None | _ => Some args end |})%Z.
+  ((counter + 1)%Z, jmarshal_req (jrequest_of counter name args h)).
 
 Inductive jsdec :=
 | JSOk (id : Z) (r : request)
@@ -645,26 +646,28 @@ Definition jservice_decode (svc : registry) (req : bytes) : jsdec :=
   end.
 
 (* ServiceCodec.Encode when context.Items()["jsonrpc"] is set *)
-Definition jservice_encode (id : Z) (r : gval + jerrv) (h : headers) : bytes :=
+Definition jresponse_of (id : Z) (r : gval + jerrv) (h : headers) : jresponse :=
   let hs := match h with [] => None | _ => Some h end in
-  jmarshal_resp
-    match r with
-    | inr (JProto code msg) =>
-        {| jp_id := id; jp_headers := hs; jp_result := None;
-           jp_error := Some {| je_code := code; je_message := msg; je_data := None |} |}
-    | inr (JPanic msg stack) =>
-        {| jp_id := id; jp_headers := hs; jp_result := None;
-           jp_error := Some {| je_code := 0; je_message := msg;
-                               je_data := match stack with [] => None | _ => Some stack end |} |}
-    | inr (JPlain msg) =>
-        {| jp_id := id; jp_headers := hs; jp_result := None;
-           jp_error := Some {| je_code := 0; je_message := msg; je_data := None |} |}
-    | inl (GError msg) =>
-        {| jp_id := id; jp_headers := hs; jp_result := None;
-           jp_error := Some {| je_code := 0; je_message := msg; je_data := None |} |}
-    | inl GNil => {| jp_id := id; jp_headers := hs; jp_result := None; jp_error := None |}
-    | inl v => {| jp_id := id; jp_headers := hs; jp_result := Some v; jp_error := None |}
-    end.
+  match r with
+  | inr (JProto code msg) =>
+      {| jp_id := id; jp_headers := hs; jp_result := None;
+         jp_error := Some {| je_code := code; je_message := msg; je_data := None |} |}
+  | inr (JPanic msg stack) =>
+      {| jp_id := id; jp_headers := hs; jp_result := None;
+         jp_error := Some {| je_code := 0; je_message := msg;
+                             je_data := match stack with [] => None | _ => Some stack end |} |}
+  | inr (JPlain msg) =>
+      {| jp_id := id; jp_headers := hs; jp_result := None;
+         jp_error := Some {| je_code := 0; je_message := msg; je_data := None |} |}
+  | inl (GError msg) =>
+      {| jp_id := id; jp_headers := hs; jp_result := None;
+         jp_error := Some {| je_code := 0; je_message := msg; je_data := None |} |}
+  | inl GNil => {| jp_id := id; jp_headers := hs; jp_result := None; jp_error := None |}
+  | inl v => {| jp_id := id; jp_headers := hs; jp_result := Some v; jp_error := None |}
+  end.
+
+Definition jservice_encode (id : Z) (r : gval + jerrv) (h : headers) : bytes :=
+  jmarshal_resp (jresponse_of id r h).
 
 Inductive jcdec :=
 | JCRes (id : Z) (h : headers) (vs : list gval)
